@@ -72,7 +72,9 @@ def graph_of_nested(nested, rooted):
 
 # ------------------------------------------------------------------ projections
 def graph(tree):
-    return proj.tree_graph(tree, labels=False)
+    g = proj.tree_graph(tree, labels=False)
+    del g["lab"]            # node labels play no role in C04 (keeps the events small)
+    return g
 
 
 def cache(tree):
@@ -152,10 +154,17 @@ KIND_APIS = {"rf": ["symmetric_difference", "unweighted_robinson_foulds_distance
              "euc": ["euclidean_distance", "Tree.euclidean_distance"]}
 
 
-def call(table, api, a, b, ord_, flag=None, pr=0):
+def call(table, api, a, b, ord_, flag=None, pr=0, with_flag=False):
     """one logged call; the outcome (value or exception type) is recorded, never interpreted"""
     kind, fn = table[api]
-    rec = {"api": api, "kind": kind, "ord": ord_, "flag": bool(flag), "pr": pr, "raised": "", "n": [], "sp": []}
+    # small events: "sp" only for the kind that returns bipartitions, "pr" only in triples, "flag" only in histories
+    rec = {"api": api, "kind": kind, "ord": ord_, "raised": "", "n": []}
+    if kind == "missing":
+        rec["sp"] = []
+    if pr:
+        rec["pr"] = pr
+    if with_flag:
+        rec["flag"] = bool(flag)
     with warnings.catch_warnings():
         warnings.simplefilter("ignore")
         try:
@@ -163,5 +172,8 @@ def call(table, api, a, b, ord_, flag=None, pr=0):
         except Exception as ex:          # logged as the outcome and judged by TLC
             rec["raised"] = type(ex).__name__
             return rec
-    rec["n"], rec["sp"] = represent(kind, v)
+    n, sp = represent(kind, v)
+    rec["n"] = n
+    if kind == "missing":
+        rec["sp"] = sp
     return rec
